@@ -156,6 +156,24 @@ type engaMsg struct {
 	tag      protocol.Tag
 	data     []byte
 	keep     bool // stays in the pool after delivery once (duplication)
+	cls      int  // message class for scheduler filters: vote step (>= 0), engaClsPayload, engaClsBundle
+}
+
+const (
+	engaClsPayload = -1
+	engaClsBundle  = -2
+)
+
+func engaClassify(tag protocol.Tag, data []byte) int {
+	switch tag {
+	case protocol.AgreementVoteTag:
+		if o, err := decodeVote(data); err == nil {
+			return int(o.(unauthenticatedVote).R.Step)
+		}
+	case protocol.VoteBundleTag:
+		return engaClsBundle
+	}
+	return engaClsPayload
 }
 
 func (m *engaMsg) String() string {
@@ -260,7 +278,7 @@ type engaStats struct {
 	maxPeriod                                                                                                     period
 	maxStep                                                                                                       step
 	sawLate, sawRedo, sawDown, pipelined, stageDigest, crashAttestCommit, disconnects, zeroPersist              int
-	verifyErr                                                                                                     int
+	verifyErr, amnesiaExcluded, holds                                                                                    int
 }
 
 type engaSim struct {
@@ -283,6 +301,7 @@ type engaSim struct {
 	dedupeDelivered bool
 	keepDup         func() bool // scheduler hook: keep a copy that dedupe would drop?
 	hold            func(m *engaMsg) bool // scheduler hook: messages held back by the network for now
+	allowAmnesia    bool                  // permit the excluded double-crash class (only the known-finding reproduction sets it)
 
 	// history
 	ref      Ledger // reference ledger holding the agreed prefix
@@ -315,7 +334,10 @@ func engaVerifier() *AsyncVoteVerifier {
 	return engaAVV
 }
 
-func engaNewSim(f engaFailer, cfg engaConfig) *engaSim {
+func engaNewSim(f engaFailer, cfg engaConfig) *engaSim { return engaNewSimHook(f, cfg, nil) }
+
+// engaNewSimHook builds the population and starts every node; hook runs before the nodes start.
+func engaNewSimHook(f engaFailer, cfg engaConfig, hook func(*engaSim)) *engaSim {
 	s := &engaSim{f: f, cfg: cfg, genesis: map[basics.Address]basics.AccountData{}, commits: map[round]engaEnsure{},
 		seenWire: map[crypto.Digest]bool{}, dedupeDelivered: true,
 		votesSeen: map[engaVoteKey][]unauthenticatedVote{}, payloads: map[proposalValue]unauthenticatedProposal{}}
@@ -352,6 +374,12 @@ func engaNewSim(f engaFailer, cfg engaConfig) *engaSim {
 	s.ref = makeTestLedger(s.genesis)
 	s.group = make([]int, cfg.Nodes)
 	s.known = make([]map[crypto.Digest]bool, cfg.Nodes)
+	for i := range s.nodes {
+		s.known[i] = map[crypto.Digest]bool{}
+	}
+	if hook != nil {
+		hook(s)
+	}
 	for i, n := range s.nodes {
 		s.known[i] = map[crypto.Digest]bool{}
 		n.ledger = makeTestLedger(s.genesis)
@@ -456,10 +484,17 @@ func (n *engaNode) start() {
 	n.armTimers()
 }
 
-func (s *engaSim) crash(i int) {
+// crash discards node i's volatile state. It reports whether the crash happened: with allowAmnesia unset, the class
+// "second crash while the crash DB holds the zero state written by a re-executed restored attest" is excluded by
+// construction (known finding double-crash-amnesia, reproduced separately by TestVerif_C01_KnownAmnesia).
+func (s *engaSim) crash(i int) bool {
 	n := s.nodes[i]
 	if !n.up {
-		return
+		return false
+	}
+	if n.diskZero && !s.allowAmnesia {
+		s.stats.amnesiaExcluded++
+		return false
 	}
 	s.stats.crashes++
 	// a crash between an attest and the commit of that round (label for C01's non-trivial rule)
@@ -475,6 +510,7 @@ func (s *engaSim) crash(i int) {
 	n.loop, n.crypto, n.persistQ = nil, nil, nil
 	n.persistSet = false
 	n.persistRouter, n.persistStatus, n.persistActions = rootRouter{}, player{}, nil
+	return true
 }
 
 func (s *engaSim) restart(i int) {
@@ -533,6 +569,9 @@ func (n *engaNode) submit(e externalEvent) {
 	}
 	if n.player.Step > s.stats.maxStep && n.player.Step < late {
 		s.stats.maxStep = n.player.Step
+	}
+	if me, ok := e.(messageEvent); ok && (me.T == payloadPresent || me.T == votePresent) && me.ConsensusRound() == before.Round+1 && len(a) > 0 && a[0].t() != ignore {
+		s.stats.pipelined++
 	}
 	if persistent(a) { // service.go:266-270
 		n.persistSet = true
@@ -650,9 +689,16 @@ func (n *engaNode) doNetwork(a networkAction) {
 	s := n.sim
 	// actions.go:133-180
 	if a.T == broadcastVotes {
+		// player.go:247-252 collects these by ranging over maps (voteTracker.go:283-292): the order is arbitrary in the
+		// real system; sort so that cases replay deterministically
+		var datas [][]byte
 		for _, uv := range a.UnauthenticatedVotes {
 			uv := uv
-			s.send(n.id, -1, protocol.AgreementVoteTag, protocol.Encode(&uv))
+			datas = append(datas, protocol.Encode(&uv))
+		}
+		sort.Slice(datas, func(i, j int) bool { return bytes.Compare(datas[i], datas[j]) < 0 })
+		for _, d := range datas {
+			s.send(n.id, -1, protocol.AgreementVoteTag, d)
 		}
 		return
 	}
@@ -991,7 +1037,7 @@ func (s *engaSim) enqueue(src, dst int, tag protocol.Tag, data []byte, h crypto.
 	}
 	s.known[dst][h] = true
 	s.seq++
-	s.pool = append(s.pool, &engaMsg{id: s.seq, src: src, dst: dst, tag: tag, data: data})
+	s.pool = append(s.pool, &engaMsg{id: s.seq, src: src, dst: dst, tag: tag, data: data, cls: engaClassify(tag, data)})
 }
 
 // observeWire records votes / payloads that were on the wire (the adversary's knowledge, and label bookkeeping).
